@@ -118,22 +118,44 @@ def fresh_int(name):
     return z3.Int("%s!%d" % (name, CUR.fresh))
 
 
-def register_input(name, term):
-    """harness inputs whose values are reported with a model of an inconclusive path (concolic probe)"""
+def register_input(name, term, lo=None, hi=None):
+    """harness inputs whose values are reported with models of an inconclusive path (concolic probe)"""
     CUR.notes.setdefault("inputs", {})[name] = term
+    if lo is not None:
+        CUR.notes.setdefault("bounds", {})[name] = (lo, hi)
 
 
 def _inputs_witness():
-    """values of the registered inputs under some model of the current path condition (None if unavailable)"""
+    """values of the registered inputs under models of the current path condition: an arbitrary model plus, when
+    bounds are known, the greedy upper and lower corner models (None if unavailable)"""
     try:
         c = CUR
         ins = c.notes.get("inputs")
         if not ins:
             return None
-        c.solver.set("timeout", 10000)
-        if c.solver.check() != z3.sat:
+        sol = c.solver
+        sol.set("timeout", 5000)
+        if sol.check() != z3.sat:
             return None
-        return _eval_wit(c.solver.model(), ins)
+        out = [_eval_wit(sol.model(), ins)]
+        bounds = c.notes.get("bounds", {})
+        for side in (1, 0):
+            sol.push()
+            try:
+                for name, term in ins.items():
+                    if name in bounds:
+                        sol.push()
+                        sol.add(term == bounds[name][side])
+                        if sol.check() != z3.sat:
+                            sol.pop()
+                if sol.check() == z3.sat:
+                    w = _eval_wit(sol.model(), ins)
+                    if w not in out:
+                        out.append(w)
+            finally:
+                while sol.num_scopes() > 0:
+                    sol.pop()
+        return out
     except BaseException:  # noqa
         return None
 
